@@ -672,6 +672,10 @@ def build_cases(tier="quick"):
     from contracts.common import rewrap
 
     ref += rewrap(PROP, c11.path_growth_cases(), "assume-scope", lambda c: "extend_path" in c.unit)
+    # `even when the failing call happens inside a nested call`: also for the calls made during invariant testing (C15's unit)
+    from contracts import c15
+
+    ref += rewrap(PROP, c15.frontier_cases(), "nested-failure-in-target", lambda c: c.case in ("fail-flag", "fail-flag, raised in a nested frame"))
     return handler_cases() + handle_arm_cases() + delayed_error_cases() + ref
 
 
